@@ -341,15 +341,19 @@ func init() {
 			"distinct = distinct source text; non-trivial = nesting depth >= 2",
 		N: func(tier string) int {
 			if tier == "thorough" {
-				return len(c17Deep)*3 + len(c17Systematic())*3 + 10000000
+				return len(c17Deep)*3 + len(c17Chains)*len(c17ChainLens) + len(c17Systematic())*3 + 10000000
 			}
-			return len(c17Deep)*3 + len(c17Systematic())*3 + 500000
+			return len(c17Deep)*3 + len(c17Chains)*len(c17ChainLens) + len(c17Systematic())*3 + 500000
 		},
 		Run: func(ctx *fw.Ctx, i int) fw.Result {
 			if i < len(c17Deep)*3 {
 				return c17DeepCase(ctx, c17Deep[i/3], []int{24, 200, 3000}[i%3])
 			}
 			i -= len(c17Deep) * 3
+			if i < len(c17Chains)*len(c17ChainLens) {
+				return c17ChainCase(ctx, c17Chains[i%len(c17Chains)], c17ChainLens[i/len(c17Chains)])
+			}
+			i -= len(c17Chains) * len(c17ChainLens)
 			sys := c17Systematic()
 			var e ref.Expr
 			if i < len(sys)*3 {
@@ -454,6 +458,74 @@ func init() {
 		},
 		Assumptions: []string{"the oracle is the real parser itself, used twice; tree comparison by reflection ignores ast.Pos and StringNode.Quoted"},
 	})
+}
+
+// c17Chains: operators written n times in a row without parentheses (a flat chain to the writer, a tree as deep as it is
+// long to the library), over operands that are all different.
+var c17Chains = [][]string{{" + "}, {" - "}, {" * "}, {" / "}, {" % "}, {" and "}, {" or "}, {" ?: "}, {" == "}, {" != "}, {" < "}, {" <= "}, {" + ", " - "}, {" * ", " / ", " % "}, {" and ", " or "}, {" + ", " * "}, {" ? 1 : "}, {" ?: ", " ? 2 : "},
+	{", "}, {"|id|"}}
+var c17ChainLens = []int{2, 7, 8, 9, 15, 16, 17, 31, 32, 33, 63, 64, 65, 66, 127, 128, 129, 255, 256, 257, 1000, 4097, 5001, 9000}
+
+func c17ChainCase(ctx *fw.Ctx, ops []string, n int) fw.Result {
+	var b strings.Builder
+	switch ops[0] {
+	case ", ":
+		b.WriteString("[")
+	case "|id|":
+		b.WriteString("$a0")
+	}
+	for k := 0; k <= n; k++ {
+		switch ops[0] {
+		case "|id|":
+			fmt.Fprintf(&b, "|truncate:%d", k)
+			continue
+		}
+		if k > 0 {
+			b.WriteString(ops[k%len(ops)])
+		}
+		fmt.Fprintf(&b, "$a%d", k)
+	}
+	if ops[0] == ", " {
+		b.WriteString("]")
+	}
+	s0 := b.String()
+	ctx.Eval(s0)
+	ctx.Cell("chain")
+	var t0 ast.Node
+	var err error
+	if ops[0] == "|id|" {
+		var f *ast.SoyFileNode
+		f, err = parse.SoyFile("", "{"+s0+"}")
+		if f != nil && len(f.Body) > 0 {
+			t0 = f.Body[0]
+		}
+	} else {
+		t0, err = parse.Expr(s0)
+	}
+	if err != nil || t0 == nil {
+		return fw.Result{Verdict: fw.Violated, Key: "generated-source-rejected", Case: fw.Trim(s0, 400), Msg: fmt.Sprintf("a chain of %d %q: %v", n, ops, err)}
+	}
+	s1 := t0.String()
+	var t1 ast.Node
+	if ops[0] == "|id|" {
+		var f *ast.SoyFileNode
+		f, err = parse.SoyFile("", s1)
+		if f != nil && len(f.Body) > 0 {
+			t1 = f.Body[0]
+		}
+	} else {
+		t1, err = parse.Expr(s1)
+	}
+	if err != nil || t1 == nil {
+		return fw.Result{Verdict: fw.Violated, Key: "printed-form-does-not-parse", Case: map[string]string{"source": fw.Trim(s0, 400), "printed": fw.Trim(s1, 400)},
+			Msg: fmt.Sprintf("a chain of %d %q prints as something that does not parse: %v", n, ops, err)}
+	}
+	if ok, why := astEqual(t0, t1); !ok {
+		return fw.Result{Verdict: fw.Violated, Key: "printed-form-parses-to-different-tree", Case: map[string]string{"source": fw.Trim(s0, 400), "printed": fw.Trim(s1, 400)},
+			Msg: fmt.Sprintf("a chain of %d %q prints as something that parses to a different tree (%s)", n, ops, why)}
+	}
+	ctx.Obs("chain_roundtrips", 1)
+	return fw.Result{Verdict: fw.Held}
 }
 
 // c17Deep: every bracketing construct, nested.
